@@ -18,12 +18,17 @@ import ast
 from .. import translate
 from . import normalize
 from ..translate import Untranslatable
-from .threshold import _expr, _str_const
+from .threshold import _expr, _str_const, parse_top
 from .tradeoff import CMP, _body, _int, _name, _single_assigns, only_statements
 
 OPF = "fairlearn/postprocessing/_threshold_operation.py"
 ITF = "fairlearn/postprocessing/_interpolated_thresholder.py"
 TOF = "fairlearn/postprocessing/_threshold_optimizer.py"
+PINNED_ITF = {
+    "InterpolatedThresholder._pmf_predict": ["base_predictions", "_", "base_predictions_vector", "sensitive_feature_vector",
+                                             "positive_probs", "a", "interpolation", "interpolated_predictions"],
+    "InterpolatedThresholder.predict": ["positive_probs"],
+}
 
 
 def U(msg):
@@ -297,10 +302,11 @@ def _delegation(tree):
 @translate.lifter
 def lift_thresholder(repo):
     ops = _operation(normalize.parse(translate._read(repo, OPF)))
-    it = normalize.parse(translate._read(repo, ITF))
+    it = normalize.canon_tree(normalize.parse(translate._read(repo, ITF)), PINNED_ITF,
+                              extra_funcs=("_get_soft_predictions", "check_random_state"))
     pm = _pmf(it)
     pr = _predict(it)
-    _delegation(normalize.parse(translate._read(repo, TOF)))
+    _delegation(parse_top(repo))
     L = ["/-\nGENERATED by harness/lifters/thresholder.py from\n  " + "\n  ".join([OPF, ITF, TOF]) +
          "\nDo not edit: rewritten on every run from the tree under check.\n-/\nset_option linter.unusedVariables false\n",
          "namespace ThresholderSrc\n"]
